@@ -15,7 +15,7 @@ REQUIRED_PROBES = {"quick": [], "thorough": []}
 
 def budget(tier):
     if tier == "quick":
-        return dict(runs=40000, wall=75, chunk=250)
+        return dict(runs=70000, wall=75, chunk=250)
     return dict(runs=1500000, wall=840, chunk=1000)
 
 
